@@ -102,6 +102,10 @@ def as_container(target, container):
         return collections.deque(target)
     if container == 'generator':
         return (a for a in target)
+    if container == 'iterator':
+        return iter(list(target))
+    if container == 'map':
+        return map(str, target)
     return tuple(target)
 
 
@@ -250,7 +254,7 @@ def systems(ctx, rng):
         settings = (100, 0.001)
     r = rng.random()
     target = list(info['cells']) if r < 0.3 else rng.choice(info['cells'])
-    container = rng.choice(['tuple', 'list', 'deque', 'generator']) if isinstance(target, list) else None
+    container = rng.choice(['tuple', 'list', 'deque', 'generator', 'iterator', 'map']) if isinstance(target, list) else None
     if rng.random() < 0.2 and channel in ('args', 'mem', 'xlsx'):
         # a cell whose whole formula is a reference into the loop, and a reader of it as the target
         cells = spec['sheets'][0][1]
